@@ -48,6 +48,7 @@ fn render_md(d: &Doc, di: usize, marks: &Path) -> String {
             'T' | 'G' => s.push_str(&format!("$ {}; {}\n", mark, slow_cmd(t.kind, &id, marks))),
             'D' => s.push_str(&format!("$ {}; sleep 0.05 &\n", mark)),
             'K' => s.push_str(&format!("$ {}; kill -9 $$\n", mark)),
+            'X' => s.push_str(&format!("$ {}; exit 3\n", mark)),   // only generated for runs with --cram-compat: leaves the script early
             _ => unreachable!(),
         }
         s.push_str("```\n\n");
@@ -78,7 +79,39 @@ fn render_cram(d: &Doc, di: usize, marks: &Path) -> String {
     s
 }
 
-pub fn gen_run(r: &mut Rng) -> (Vec<Doc>, Option<u64>) {
+/// two special runs that are generated whole: `--timeout-seconds 0` over a front-matter limit, and `--cram-compat` over Markdown documents
+fn special_run(r: &mut Rng) -> Option<(Vec<Doc>, Option<u64>, bool)> {
+    match r.below(24) {
+        0 => {
+            // the command line says unlimited (0); the front-matter says 800 ms; the slow test case must simply finish
+            let mut tests = vec![T { kind: *r.pick(&['P', 'O']), code: 0, inline_skip: None }, T { kind: 'G', code: 0, inline_skip: None }];
+            if r.chance(1, 2) { tests.push(T { kind: *r.pick(&['P', 'O', 'E']), code: 2, inline_skip: None }); }
+            Some((vec![Doc { cram: false, role: 'm', docskip: None, total_ms: Some(800), tests, fileno: 0 }], Some(0), false))
+        }
+        1 | 2 => {
+            // Markdown documents run as ONE script each (--cram-compat); skip codes set per test case (the same on all of them) or per document
+            let mut docs = vec![];
+            for i in 0..r.range(1, 2) {
+                let inline = if r.chance(1, 2) { Some(*r.pick(&[5, 9])) } else { None };
+                let docskip = if r.chance(1, 3) { Some(*r.pick(&[3, 7])) } else { None };
+                let n = r.range(1, 4);
+                let mut tests = vec![];
+                for _ in 0..n {
+                    let mut t = T { kind: 'P', code: 0, inline_skip: inline };
+                    match r.below(9) { 0 | 1 => {}, 2 => t.kind = 'O', 3 => { t.kind = 'C'; t.code = *r.pick(&[1, 80, 5]); } 4 => { t.kind = 'E'; t.code = *r.pick(&[1, 2, 80]); }
+                        5 => t.kind = 'S', 6 => t.kind = if r.chance(1, 2) { 'Q' } else { 'S' }, 7 => t.kind = 'X', _ => if r.chance(1, 3) { t.kind = 'K' } }
+                    tests.push(t);
+                }
+                docs.push(Doc { cram: false, role: 'm', docskip, total_ms: None, tests, fileno: i });
+            }
+            Some((docs, None, true))
+        }
+        _ => None,
+    }
+}
+
+pub fn gen_run(r: &mut Rng) -> (Vec<Doc>, Option<u64>, bool) {
+    if let Some(x) = special_run(r) { return x; }
     let ndocs = r.range(1, 3);
     let mut docs = vec![];
     let mut cli_timeout = None;
@@ -152,7 +185,7 @@ pub fn gen_run(r: &mut Rng) -> (Vec<Doc>, Option<u64>) {
     if r.chance(1, 6) { for x in nos.iter_mut() { *x += 8; } }   // doc8, doc9, doc10, doc11: numeric order is not lexicographic order
     for (d, no) in docs.iter_mut().zip(nos) { d.fileno = no; }
     if cli_timeout.is_some() { for d in docs.iter_mut() { if !d.cram && d.role == 'm' { d.total_ms = None; } } }
-    (docs, cli_timeout)
+    (docs, cli_timeout, false)
 }
 
 fn show_doc(d: &Doc) -> String {
@@ -161,7 +194,7 @@ fn show_doc(d: &Doc) -> String {
         d.tests.iter().map(|t| format!("{}{}{}", t.kind, if t.kind == 'C' || t.kind == 'E' { t.code.to_string() } else { String::new() }, t.inline_skip.map_or(String::new(), |k| format!("i{}", k)))).collect::<Vec<_>>().join(","))
 }
 
-pub fn run(docs: &[Doc], cli_timeout: Option<u64>, scrut: &str, base: &Path) -> String {
+pub fn run(docs: &[Doc], cli_timeout: Option<u64>, compat: bool, scrut: &str, base: &Path) -> String {
     let dir = tempfile::Builder::new().prefix("cli.").tempdir_in(base).unwrap();
     let tmpdir = dir.path().join("tmp");
     std::fs::create_dir_all(&tmpdir).unwrap();
@@ -176,6 +209,7 @@ pub fn run(docs: &[Doc], cli_timeout: Option<u64>, scrut: &str, base: &Path) -> 
     let mut cmd = Command::new(scrut);
     cmd.current_dir(dir.path()).env("TMPDIR", &tmpdir).env("NO_COLOR", "1").arg("test").arg("-r").arg("json").arg("--log-level").arg("error");
     if let Some(t) = cli_timeout { cmd.arg("--timeout-seconds").arg(t.to_string()); }
+    if compat { cmd.arg("--cram-compat"); }
     for m in &mains { cmd.arg(m); }
     if !pres.is_empty() { cmd.arg("--prepend-test-file-paths"); for p in &pres { cmd.arg(p); } }
     if !apps.is_empty() { cmd.arg("--append-test-file-paths"); for p in &apps { cmd.arg(p); } }
@@ -208,9 +242,9 @@ pub fn run(docs: &[Doc], cli_timeout: Option<u64>, scrut: &str, base: &Path) -> 
     let late = std::fs::read_to_string(dir.path().join("late")).unwrap_or_default().split_whitespace().collect::<Vec<_>>().join(",");
     let marks_s = std::fs::read_to_string(&marks).unwrap_or_default().split_whitespace().collect::<Vec<_>>().join(",");
     let leftover = std::fs::read_dir(&tmpdir).map(|d| d.filter_map(|e| e.ok()).map(|e| e.file_name().to_string_lossy().to_string()).collect::<Vec<_>>()).unwrap_or_default();
-    format!("R {}|cli_timeout={}|exit={}|json={}|{}|marks={}|leftover={}|late={}",
+    format!("R {}|cli_timeout={}|exit={}|json={}|{}|marks={}|leftover={}|late={}|compat={}",
         docs.iter().map(show_doc).collect::<Vec<_>>().join(";"), cli_timeout.map_or("-".to_string(), |t| t.to_string()), code, json_ok as u8,
-        if entries.is_empty() { "-".to_string() } else { entries.join(",") }, if marks_s.is_empty() { "-".to_string() } else { marks_s }, leftover.len(), if late.is_empty() { "-".to_string() } else { late })
+        if entries.is_empty() { "-".to_string() } else { entries.join(",") }, if marks_s.is_empty() { "-".to_string() } else { marks_s }, leftover.len(), if late.is_empty() { "-".to_string() } else { late }, compat as u8)
 }
 
 pub fn main(args: &[String], w: &mut dyn Write) {
@@ -222,7 +256,7 @@ pub fn main(args: &[String], w: &mut dyn Write) {
     let mut r = Rng::new(seed.wrapping_add(shard * 32452843));
     let n = (count + nsh - 1 - shard) / nsh;
     for _ in 0..n {
-        let (docs, ct) = gen_run(&mut r);
-        writeln!(w, "{}", run(&docs, ct, &scrut, &base)).unwrap();
+        let (docs, ct, compat) = gen_run(&mut r);
+        writeln!(w, "{}", run(&docs, ct, compat, &scrut, &base)).unwrap();
     }
 }
